@@ -178,6 +178,7 @@ class Arena:
         self.cleared = False
         self.pending_len = None
         self.fresh_keys = set()
+        self.owned = False
 
     def stale(self, key):
         return key.startswith("pop(") or key.startswith("len(") or key in self.fresh_keys
@@ -657,7 +658,9 @@ class Interp:
             if p == VEC:
                 et = self.ty(t["a"][0])
                 if et["t"] == "adt" and et["p"] == NODE:
-                    return ArenaVecV(self.arena(name.lstrip("*")))    # an owned node vector (IntoIter)
+                    ar = self.arena(name.lstrip("*"))
+                    ar.owned = True        # a node vector owned by an iterator: the map (and its counter) is gone
+                    return ArenaVecV(ar)
                 return VecV(VecObj(name, [], base=name))
             if p == TABLE:
                 return TableV(self.arena(name.lstrip("*")))
@@ -727,7 +730,7 @@ class Interp:
                 pv = nv.fields["0"].value
                 payload = pv.name if isinstance(pv, (UnkV, SymV)) else repr(pv)
                 nv.fields["0"].name = cell.name + ".some"   # the payload now lives in this node
-            self.emit("value_write", table=arena.name, node=key, old=po, new=pn, payload=payload)
+            self.emit("value_write", table=arena.name, node=key, old=po, new=pn, payload=payload, owned=arena.owned)
         elif fname in ("left", "right"):
             new = self.val_force(val)
             if isinstance(cell.value, UnkV) and arena.stale(key):
@@ -1099,8 +1102,12 @@ class Interp:
 
     def e_Adt(self, n, fr):
         fields = {}
+        local = n["adt"].startswith(CRATE + "::")
         for f in n["fields"]:
-            fields[f["name"]] = Cell(self.eval(f["e"], fr), f["name"])
+            c = Cell(self.eval(f["e"], fr), f["name"])
+            if local:
+                c.watch = ("field", n["adt"], f["name"])
+            fields[f["name"]] = c
         if n.get("base") is not None:
             raise Unrecognised("functional record update")
         return StructV(n["adt"], n["variant"], fields)
